@@ -43,6 +43,10 @@ pub struct Plan {
     pub rfaults: Vec<RFault>,
     /// after a faulted attempt, make one fault-free attempt with the same value
     pub retry: bool,
+    /// read through `Deserialize::deserialize_in_place` into an existing (different) value
+    /// instead of `Deserialize::deserialize` — what `Vec<T>`/`Option<T>` do when they reuse storage
+    #[serde(default)]
+    pub in_place: bool,
 }
 
 #[derive(Clone, Debug, PartialEq)]
@@ -295,7 +299,15 @@ struct ReadOutcome<T> {
     trace: Option<Vec<(RStep, u8)>>,
 }
 
-fn read_once<T: Subject>(medium: Medium, root: &Node, rfaults: &[RFault], trace: bool) -> ReadOutcome<T> {
+/// A value of `T` unrelated to the one under test (the old contents of reused storage).
+pub fn stale_value<T: Subject>() -> T {
+    let mut kinds = Vec::new();
+    T::gen_kinds(&mut kinds);
+    let g: Vec<u64> = kinds.iter().enumerate().map(|(i, (k, _))| crate::registry::small_value(*k, 40 + i as i64)).collect();
+    T::build(&mut Cur::new(&g))
+}
+
+fn read_once<T: Subject>(medium: Medium, root: &Node, rfaults: &[RFault], trace: bool, in_place: bool) -> ReadOutcome<T> {
     let unknown_vals: Vec<Node> = rfaults
         .iter()
         .map(|f| match f {
@@ -304,7 +316,14 @@ fn read_once<T: Subject>(medium: Medium, root: &Node, rfaults: &[RFault], trace:
         })
         .collect();
     let env = ReadEnv::new(medium, root, rfaults, &unknown_vals, trace);
-    let r = catch_unwind(AssertUnwindSafe(|| T::deserialize(env.de())));
+    let r = catch_unwind(AssertUnwindSafe(|| {
+        if in_place {
+            let mut place: T = stale_value::<T>();
+            T::deserialize_in_place(env.de(), &mut place).map(|()| place)
+        } else {
+            T::deserialize(env.de())
+        }
+    }));
     let result = match r {
         Ok(Ok(v)) => Ok(v),
         Ok(Err(e)) => Err(e.to_string()),
@@ -382,6 +401,8 @@ pub struct ReadFacts<'a> {
     /// an error / truncation hit before every top-level field had been delivered completely
     pub err_before_all: bool,
     pub keyed: bool,
+    /// keys are delivered as bytes: acceptance is not promised, only "never wrong data"
+    pub weak_keys: bool,
     pub is_dec: bool,
     pub patched: bool,
 }
@@ -511,6 +532,7 @@ pub fn judge_read<T: Subject>(
     };
 
     let a1 = if patched { "AP" } else { "A1" };
+    let weak = facts.weak_keys;
     if !keyed {
         // positional medium: names are not on the wire, structural faults are meaningless
         if !any_applied && !is_dec {
@@ -531,11 +553,13 @@ pub fn judge_read<T: Subject>(
     } else if nested_struct || top_dup || top_drop || top_unknown {
         expect_no_wrong_data(out, "structural fault");
     } else if top_reorder || nested_reorder {
-        if is_dec && !nested_reorder {
+        if is_dec && !nested_reorder && !weak {
             expect_ok_equal(out, "A3", "fields of Decomposed delivered in another order");
         } else {
             expect_no_wrong_data(out, "reordered record");
         }
+    } else if weak {
+        expect_no_wrong_data(out, "keys delivered as bytes");
     } else {
         expect_ok_equal(out, a1, "fault-free round trip");
     }
@@ -657,7 +681,7 @@ pub fn run_plan<T: Subject>(plan: &Plan, opts: RunOpts) -> Outcome {
                     whole = false;
                     why = e;
                 } else {
-                    let rb: ReadOutcome<T> = read_once(medium, root, &[], false);
+                    let rb: ReadOutcome<T> = read_once(medium, root, &[], false, false);
                     out.rsteps += rb.steps;
                     match rb.result {
                         Ok(v2) => {
@@ -669,7 +693,7 @@ pub fn run_plan<T: Subject>(plan: &Plan, opts: RunOpts) -> Outcome {
                         Err(e) => {
                             // positional framing cannot read a Decomposed back today; that is
                             // not the write's fault
-                            if !(is_dec && !medium.keyed()) {
+                            if !((is_dec && !medium.keyed()) || medium.key_form.is_bytes()) {
                                 whole = false;
                                 why = format!("read-back failed: {}", e);
                             }
@@ -712,7 +736,7 @@ pub fn run_plan<T: Subject>(plan: &Plan, opts: RunOpts) -> Outcome {
     }
 
     if let Some(root) = stored.as_ref() {
-        let r: ReadOutcome<T> = read_once(medium, root, &plan.rfaults, opts.trace);
+        let r: ReadOutcome<T> = read_once(medium, root, &plan.rfaults, opts.trace, plan.in_place);
         out.rsteps += r.steps;
         out.rfired = r.fired.clone();
         out.applied = r.applied.clone();
@@ -739,6 +763,7 @@ pub fn run_plan<T: Subject>(plan: &Plan, opts: RunOpts) -> Outcome {
             err_fired: !r.fired.is_empty(),
             err_before_all: r.fired.iter().any(|f| f.top_done & all_top != all_top),
             keyed: medium.keyed(),
+            weak_keys: medium.key_form.is_bytes(),
             is_dec,
             patched,
         };
@@ -819,7 +844,7 @@ pub fn run_plan<T: Subject>(plan: &Plan, opts: RunOpts) -> Outcome {
         log.u64(w2.log);
         match (&w2.result, &w2.root) {
             (Ok(()), Some(root2)) => {
-                let r2: ReadOutcome<T> = read_once(medium, root2, &[], false);
+                let r2: ReadOutcome<T> = read_once(medium, root2, &[], false, plan.in_place);
                 out.rsteps += r2.steps;
                 log.u64(r2.log);
                 match r2.result {
@@ -829,7 +854,7 @@ pub fn run_plan<T: Subject>(plan: &Plan, opts: RunOpts) -> Outcome {
                         }
                     }
                     Err(e) => {
-                        if !(is_dec && !medium.keyed()) {
+                        if !((is_dec && !medium.keyed()) || medium.key_form.is_bytes()) {
                             fail!("AR", "fault-free retry after a faulted attempt failed to read: {}", e);
                         }
                     }
@@ -851,6 +876,7 @@ pub fn run_plan<T: Subject>(plan: &Plan, opts: RunOpts) -> Outcome {
     sg.u64(w.result.is_ok() as u64);
     sg.u64(out.sig);
     sg.u64(patched as u64);
+    sg.u64(plan.in_place as u64);
     out.sig = sg.finish();
     if wfaulted {
         out.nontrivial = true;
